@@ -569,10 +569,13 @@ func RunOne(prefix []int, opt Options, body func(s *Sched) (check func() []strin
 		}
 	}
 	s.mu.Unlock()
+	// one at a time: a released thread runs its deferred functions with the locks no longer enforced, so two of
+	// them must not run side by side (two connection handlers both untracking their connection wrote one map
+	// concurrently: "fatal error: concurrent map writes" on a loaded machine)
 	for _, t := range parked {
 		t.wake <- struct{}{}
+		synctest.Wait()
 	}
-	synctest.Wait()
 	if teardown != nil {
 		teardown()
 	}
@@ -593,8 +596,8 @@ func RunOne(prefix []int, opt Options, body func(s *Sched) (check func() []strin
 		}
 		for _, t := range parked {
 			t.wake <- struct{}{}
+			synctest.Wait()
 		}
-		synctest.Wait()
 	}
 	s.mu.Lock()
 	for _, tm := range s.timers {
